@@ -40,15 +40,13 @@ ImplZ(st, width, fill, v) ==
        sign == IF ZIsNeg(v) THEN "-" ELSE p.sign
        sb0 == IF p.showbase = "no" THEN "" ELSE IF p.base = 16 THEN "0x" ELSE IF p.base = -16 THEN "0X" ELSE IF p.base = 8 THEN "0" ELSE ""
        sb == IF p.showbase = "nonzero" /\ Chr(s, 1) = "0" THEN "" ELSE sb0
-       justlen == width - (Len(s) + Len(sign) + Len(sb))
+       justlen == width - (Len(s) + (IF Variant = "justlen_no_sign" THEN 0 ELSE Len(sign)) + Len(sb))
        just == IF justlen <= 0 THEN "none" ELSE p.justify
-       \* the internal padding of __gmp_doprnt_integer follows sign and base indicator; a hexadecimal indicator is a padding point of the C++
-       \* standard too, an octal one is not: (Variant "oct_prefix_pad" = the code before the fix of finding F-C20-2 / the code if that is unfixed)
-       octInt == just = "internal" /\ p.base = 8 /\ Variant # "oct_prefix_pad"
-   IN  (IF just = "right" THEN Rep(fill, justlen) ELSE "") \o sign \o (IF octInt THEN Rep(fill, justlen) ELSE "") \o sb
-       \o (IF just = "internal" /\ ~octInt THEN Rep(fill, justlen) ELSE "") \o s \o (IF just = "left" THEN Rep(fill, justlen) ELSE "")
+   IN  (IF just = "right" THEN Rep(fill, justlen) ELSE "") \o sign \o sb                    \* sign, base indicator,
+       \o (IF just = "internal" THEN Rep(fill, justlen) ELSE "") \o s                        \* THEN the internal padding (also after an octal 0: see CxxStream.tla)
+       \o (IF just = "left" THEN Rep(fill, justlen) ELSE "")
 
-ASSUME Variant \in {"ok", "oct_prefix_pad", "upper_ignored", "internal_as_right", "showbase_always"}
+ASSUME Variant \in {"ok", "justlen_no_sign", "upper_ignored", "internal_as_right", "showbase_always"}
 Rows == {<<st, w, f, v>> : st \in States, w \in Widths, f \in Fills, v \in Vals}
 RowOK(st, w, f, v) ==
    LET want == OstreamLayout(st, w, f, v)
